@@ -18,7 +18,7 @@ def run(tier: str) -> int:
         'judged by TLC (Obs_ExaRib + Trace_ExaRib); distinct = distinct modulo renaming of keys/attributes; non-trivial = at least two actions'
     )
     ck.assumptions += [
-        'keys: k1=10.0.1.0/24, k3=2001:db8:3::/48 and k4 = second ADD-PATH path of the prefix of k1; attrs: x, y (+z)',
+        'keys: k1=10.0.1.0/24, k3=2001:db8:3::/48, k4 = second ADD-PATH path of the prefix of k1, k7 = labeled 10.0.7.0/24 (x / y differ in the label only); attrs: x, y (+z)',
         'wire messages are abstracted to (announce/withdraw, key, attribute signature) by harness/wire.py (RFC 4271/4760/7911 splitter)',
         'paths-limit not configured; adj-rib-out kept',
     ]
@@ -27,10 +27,13 @@ def run(tier: str) -> int:
         ribcheck.run_rib(ck, 'C04', ['k1', 'k3'], ['x', 'y'], 4, 300, RULES, 'c04q')
         # two ADD-PATH paths of one prefix: the key of a route is (family, path-id, prefix), not the prefix
         ribcheck.run_rib(ck, 'C04', ['k6', 'k4'], ['x', 'y'], 3, 400, RULES, 'c04qp')
+        # a labeled route whose "attribute sets" x and y differ in the label only: the label is payload, a change of it must reach the peer
+        ribcheck.run_rib(ck, 'C04', ['k7', 'k1'], ['x', 'y'], 3, 200, RULES, 'c04ql')
     else:
         ribcheck.model_check(ck, ['k1', 'k3'], ['x', 'y'], 9, 'c04t', timeout=2400)
         ribcheck.run_rib(ck, 'C04', ['k1', 'k3'], ['x', 'y'], 5, 3000, RULES, 'c04t')
         ribcheck.run_rib(ck, 'C04', ['k1', 'k4', 'k3'], ['x', 'y', 'z'], 3, 3000, RULES, 'c04t3')
+        ribcheck.run_rib(ck, 'C04', ['k7', 'k1'], ['x', 'y', 'z'], 4, 2000, RULES, 'c04tl')
     return ck.finish()
 
 
